@@ -194,7 +194,7 @@ def _interpret_node(t: Node, variables: Set[Variable], model: Model):
     if not has_concept:
         instance = (var, CONCEPT_ROLE, None)
         triples.insert(0, instance)
-        epidata.append((instance, []))
+        epidata.insert(0, (instance, []))
 
     return var, triples, epidata
 
